@@ -4,6 +4,7 @@ import (
 	"context"
 	"fmt"
 	"net"
+	"os"
 	"runtime"
 	"sort"
 	"strings"
@@ -50,6 +51,10 @@ type c17Case struct {
 	// CallerCloses: whoever cancels the context also closes the listener (to wake a blocked Accept), so
 	// the server's own Close of the listener reports an error
 	CallerCloses bool `json:"caller_closes,omitempty"`
+	// HoldMs (cancel in-handler): the handler stays at work for this long, in real time, after the
+	// cancellation (a slow backend); Serve may not return before it has finished.  The verdict is the order
+	// of events, the duration only says how long Serve was given to lose patience
+	HoldMs int `json:"hold_ms,omitempty"`
 }
 
 func genC17(t *rapid.T) c17Case {
@@ -57,6 +62,9 @@ func genC17(t *rapid.T) c17Case {
 		Cancel: rapid.SampledFrom([]string{"before-accept", "in-accept", "in-accept", "parked", "parked", "in-handler", "in-handler", "end"}).Draw(t, "cancel"),
 		Procs:  rapid.SampledFrom([]int{0, 1, 2}).Draw(t, "procs"),
 		Ref:    rapid.IntRange(0, 3).Draw(t, "ref_stack") == 0,
+	}
+	if c.Cancel == "in-handler" {
+		c.HoldMs = rapid.SampledFrom([]int{0, 0, 0, 0, 0, 10}).Draw(t, "handler_works_on_ms")
 	}
 	c.CallerCloses = rapid.IntRange(0, 3).Draw(t, "caller_closes_listener") == 0
 	n := rapid.IntRange(0, 5).Draw(t, "nconns")
@@ -306,6 +314,13 @@ scripts:
 					if c.Cancel == "in-handler" && i == c.Target {
 						cancel()
 						ln.Kick()
+						if c.HoldMs > 0 {
+							ev.Class("handler-at-work-long-after-cancellation")
+							time.Sleep(time.Duration(c.HoldMs) * time.Millisecond)
+							if serveGone() {
+								fail("handler-outlives-serve", "Serve returned within %d ms of the cancellation while the handler of connection %d was still at work and its connection open", c.HoldMs, i)
+							}
+						}
 					}
 					close(release)
 				}
@@ -532,6 +547,22 @@ func TestC17Enum(t *testing.T) {
 			runC17(t, c)
 			classifyC17(c)
 		}
+	}
+}
+
+// TestC17EnumSlowHandler: the context is cancelled while a handler is at work, and the handler goes on
+// for seconds of real time (2.5 s in quick, 32 s in thorough - longer than the accept and read deadlines
+// the server arms and than any patience a shutdown path is likely to have).
+func TestC17EnumSlowHandler(t *testing.T) {
+	hold := 2500
+	if os.Getenv("VERIF_TIER") == "thorough" {
+		hold = 32000
+	}
+	for _, ref := range []bool{false, true} {
+		c := c17Case{Conns: []c17Conn{{Ops: []c17Op{{Kind: "pkt", Pieces: 1}}}, {Ops: []c17Op{{Kind: "pkt", Pieces: 1, Hold: true}}}, {}}, Cancel: "in-handler", Target: 1, HoldMs: hold, Ref: ref}
+		runC17(t, c)
+		classifyC17(c)
+		hold = 1000
 	}
 }
 
